@@ -11,7 +11,11 @@ Alphabet == {"(", ")", "{", "}", "[", "]", "<", ">", "|", "&", "^", "!", "_", "+
              "=", "==", "!=", ">=", "<=", "<<", ">>", "->", "|:", "..",
              "fn", "var", "const", "if", "goto", "loop", "return", "else", "cast", "as", "import", "pub", "extern",
              "struct", "word8", "word64", "ty", "id", "bi", "lit", "0x1F", "suf", "chr", "true", "str", "bad"}
-Contexts == <<"top", "body", "stmt", "type", "param", "member", "cond", "pubbody">>
+\* the last four (dimension audit): a body after a declaration that failed, the top level right after the closed body
+\* zone of a public function, an expression cut by the end of the input, the value of a public constant between
+\* two private zones
+Contexts == <<"top", "body", "stmt", "type", "param", "member", "cond", "pubbody",
+              "aftererr", "afterpub", "eofexpr", "pubconst">>
 
 VARIABLES seq, fin
 Init == seq = <<>> /\ fin = FALSE
